@@ -13,3 +13,16 @@ PROPS["C18"] = {
     "stubs": [],
     "assumptions": ["buffer length <= size+slack = 1100 (the default configuration's maximum)"],
 }
+
+PROPS["C10"] = {
+    "harnesses": [
+        {"pkg": "health", "name": "VerifC10_Defaults", "quick": {}, "thorough": {},
+         "bounds": {"ints": "5 x full int64"}},
+        {"pkg": "health", "name": "VerifC10_HttpDefaults", "quick": {}, "thorough": {},
+         "bounds": {"strings": "one of host/scheme/path symbolic, len<=3 over {space,ws,letter}; port len<=6 over [+-0-9x]", "num_port": "full int64"}},
+        {"pkg": "health", "name": "VerifC10_Threshold", "quick": {}, "thorough": {}, "reach": ["end", "fatal"],
+         "bounds": {"failure_threshold": "[-1,4]", "checks": 6, "stop_at": "[0,6]"}},
+    ],
+    "stubs": ["go-health scheduler: OnComplete after each check with running ContiguousFailures (contract)"],
+    "assumptions": [],
+}
